@@ -28,6 +28,7 @@ type JobCfg struct {
 	SolverTimeoutMs int               `json:"solver_timeout_ms"`
 	Solver          string            `json:"solver"`
 	Params          map[string]int    `json:"params"`
+	SplitGroups     int               `json:"split_groups"`
 	SymAlloc        bool              `json:"sym_alloc"` // mallocgc with a symbolic size keeps it symbolic
 }
 
@@ -55,6 +56,9 @@ func (c *JobCfg) defaults() {
 	}
 	if c.SolverTimeoutMs == 0 {
 		c.SolverTimeoutMs = 10000
+	}
+	if c.SplitGroups == 0 {
+		c.SplitGroups = 8
 	}
 	if c.PoolPolicy == "" {
 		c.PoolPolicy = "reuse"
@@ -265,7 +269,7 @@ func runJob(P *Program, job *Job) (res *JobResult) {
 	}
 	defer solver.Close()
 	if lf := os.Getenv("GOSYM_SMTLOG"); lf != "" {
-		f, _ := os.Create(fmt.Sprintf("%s.%s.smt2", lf, job.ID))
+		f, _ := os.Create(fmt.Sprintf("%s.%s.smt2", lf, strings.NewReplacer("/", "_", ">", "_", ":", "_").Replace(job.ID)))
 		if f != nil {
 			defer f.Close()
 			solver.Log = f
